@@ -13,6 +13,14 @@ func (o *Operator) VerifSync() {
 	<-done
 }
 
+// VerifCheckpointReleased reports whether a checkpoint record is in place whose waiters have been released
+// (all barriers arrived but the record was not reset, e.g. after a failed acknowledgement).
+func (o *Operator) VerifCheckpointReleased() bool {
+	o.mu.RLock()
+	defer o.mu.RUnlock()
+	return o.checkpoint != nil && o.checkpoint.released
+}
+
 // VerifCheckpointState reports the in-progress checkpoint: its id and the senders whose barrier is missing.
 func (o *Operator) VerifCheckpointState() (id uint64, missing []string, inProgress bool) {
 	o.mu.RLock()
